@@ -132,8 +132,32 @@ namespace sim
             s += ts[ r.below( sizeof( ts ) / sizeof( ts[ 0 ] ) ) ];
          }
       }
+      else if( prog == 8 ) {
+         static const char* bodies[] = { "ab", "12", "a1.b", "!", "..", "x9!y", "", "ab?12", "ab?x", "?7", "a.?", "7a7", "ab#", "#", "1.#x" };
+         static const char* open[] = { "(", "[", "{", "<", "|", "/", "@", "$(", "$[", "$/" };
+         static const char* close[] = { ")", "]", "}", ">", "|", "/", "@", ")", "]", "/" };
+         for( unsigned i = r.range( 1, 5 ); i > 0; --i ) {
+            const unsigned k = r.below( 10 );
+            const std::string b = bodies[ r.below( 15 ) ];
+            s += open[ k ];
+            if( k == 6 ) {
+               // @ at<body> [ @ disable<body> ] body @
+               if( r.chance( 1, 2 ) ) {
+                  s += "@" + b;
+               }
+               s += b;
+            }
+            else {
+               s += b;
+            }
+            s += r.chance( 7, 8 ) ? close[ k ] : "";
+            if( r.chance( 1, 5 ) ) {
+               s += " ";
+            }
+         }
+      }
       else if( prog == 6 ) {
-         static const char* ts[] = { "(ab)", "[cd]", "{ef}", "{ef.g}", "<gh>", "!ij", "!kl?", " ", "(a", "[x", "{y", "<z", "()", "[]", "(ab]", "!", "{q.}" };
+         static const char* ts[] = { "+ab", "+ab+cd", "+ab+", "+", "(ab)", "[cd]", "{ef}", "{ef.g}", "<gh>", "!ij", "!kl?", " ", "(a", "[x", "{y", "<z", "()", "[]", "(ab]", "!", "{q.}" };
          for( unsigned i = r.range( 1, 6 ); i > 0; --i ) {
             s += ts[ r.below( sizeof( ts ) / sizeof( ts[ 0 ] ) ) ];
          }
@@ -171,7 +195,7 @@ namespace sim
       }
       // page-size boundaries (mapped files): pad with insignificant whitespace up to 0/1/4095/4096/4097/8192 bytes
       const bool file_class = ( io_class == IO_MMAP || io_class == IO_FILE || io_class == IO_READ || io_class == IO_READ_FP );
-      if( file_class ? r.chance( 1, 14 ) : r.chance( 1, 100 ) ) {
+      if( prog <= IO_PROGS && ( file_class ? r.chance( 1, 14 ) : r.chance( 1, 100 ) ) ) {
          static const std::size_t targets[] = { 0, 1, 4095, 4096, 4096, 4097, 8192 };
          const std::size_t t = targets[ r.below( r.chance( 1, 6 ) ? 7 : 6 ) ];
          if( t < s.size() ) {
